@@ -22,7 +22,7 @@ ASSUMPTIONS = ["opaque features for attribute selectors / argument-less pseudo-c
 
 
 def plan(tier):
-    return {"budget_s": 50 if tier == "quick" else 700, "profiles": ["R"], "min_evaluations": 2000, "params": {"nodes": 3 if tier == "quick" else 4}}
+    return {"budget_s": 50 if tier == "quick" else 700, "profiles": ["R"], "min_evaluations": 200, "params": {"nodes": 3 if tier == "quick" else 4}}
 
 
 def gen_sheet(rng):
